@@ -168,6 +168,14 @@ def _r1(chk, repo):
     # the protected step: keyword values are turned into the positional list that is evaluated
     reord = nodes_matching(g, "$a=[kwargs[_k0] for _k0 in $pn]")
     ret = [n for n in g.returns() if "self._logd(*" in pn(n.ast)]
+    if not reord:
+        # ... or built in place in the evaluating statement: return self._logd(*[kwargs[k] for k in names]) + ...
+        for n in ret:
+            for c_ in ast.walk(n.ast):
+                if isinstance(c_, ast.ListComp):
+                    b_ = pmatch("[kwargs[_k0] for _k0 in $pn]", c_)
+                    if b_ is not None:
+                        reord.append((n, b_))
     rec = len(reord) == 1 and len(ret) >= 1
     r0 = reord[0][0] if rec else None
     chk.decide("C01-R1", f"{dens.qual}.logd/positional+keyword", rec and (guarded(g, r0, "0<len(args)", "F") or guarded(g, r0, "len(args)==0", "T") or guarded(g, r0, "args", "F")),
@@ -314,8 +322,14 @@ def _r2(chk, repo):
     f = repo.method(dens, "logd")[1]
     v, g = cfgv(repo, dens, f)
     rets = [pn(n.ast.value) for n in g.returns()]
-    good = {"self._logd(*args)+self._constant", "self._constant+self._logd(*args)"}
-    ok = bool(rets) and all(r in good or pmatch("self._logd(*$a)+self._constant", r) is not None or pmatch("self._constant+self._logd(*$a)", r) is not None for r in rets)
+
+    def plus_constant(e):
+        # self._logd(<whatever arguments>) + self._constant, in either operand order
+        if not (isinstance(e, ast.BinOp) and isinstance(e.op, ast.Add)):
+            return False
+        sides = [e.left, e.right]
+        return any(path_of(a) == "self._constant" and isinstance(b_, ast.Call) and call_name(b_) == "self._logd" for a, b_ in (sides, sides[::-1]))
+    ok = bool(rets) and all(n.ast.value is not None and plus_constant(n.ast.value) for n in g.returns())
     rec = any("self._logd(" in r for r in rets)
     chk.decide("C01-R2", f"{dens.qual}.logd/constant", ok, rec, site(repo, f), "_logd + folded constant",
                f"Density.logd returns {rets}: the folded constant of fixed variables is not added on every path", f)
